@@ -874,7 +874,8 @@ pub fn eval_iter(toks: &[&str]) -> String {
 }
 
 pub fn eval_rrset(toks: &[&str]) -> String {
-    if toks.len() != 3 {
+    // an optional 4th token `exp=…` carries the generator's ground truth; it is for the oracle only
+    if toks.len() != 3 && !(toks.len() == 4 && toks[3].starts_with("exp=")) {
         return "bad-request".into();
     }
     let bytes = match from_hex(toks[2]) {
@@ -1322,6 +1323,67 @@ pub fn gen_iter(r: &mut Rng, _i: u64) -> String {
     format!("iter {}", to_hex(&buf))
 }
 
+fn gname_hex(n: &GName) -> String {
+    to_hex(&n.text())
+}
+
+/// canonical text of generator data — written from the semantic value, never from decoded bytes
+fn gdata_show(t: u16, d: &GData) -> Option<String> {
+    Some(match d {
+        GData::A(v) => format!("A:{}", v),
+        GData::Aaaa(v) => format!("AAAA:{}", v),
+        GData::Dn(n) => format!("{}:{}", type_name(t), gname_hex(n)),
+        GData::Soa(m, r, v) => format!("SOA:{}:{}:{}:{}:{}:{}:{}", gname_hex(m), gname_hex(r), v[0], v[1], v[2], v[3], v[4]),
+        GData::Null(b) => format!("NULL:{}", to_hex(b)),
+        GData::Wks(a, p, b) => format!("WKS:{}:{}:{}", a, p, to_hex(b)),
+        GData::Hinfo(c, o) => format!("HINFO:{}:{}", to_hex(c), to_hex(o)),
+        GData::Minfo(a, b) => format!("MINFO:{}:{}", gname_hex(a), gname_hex(b)),
+        GData::Mx(p, n) => format!("MX:{}:{}", p, gname_hex(n)),
+        GData::Txt(ss) => format!("TXT:{}", to_hex(&ss.concat())),
+        GData::Raw(_) => return None,
+    })
+}
+
+fn eq_ci(a: &GName, b: &GName) -> bool {
+    a.labels.len() == b.labels.len()
+        && a.labels.iter().zip(b.labels.iter()).all(|(x, y)| x.eq_ignore_ascii_case(y))
+}
+
+/// the specification of record-set extraction on the SEMANTIC answer section (independent reference):
+/// follow CNAMEs from the question name; at each name return the records of the wanted type and class
+/// if there are any, else follow the first unused CNAME of that owner and class, else no answer.
+fn reference_rrset(answers: &[GRec], qname: &GName, qclass: u16, want: u16) -> String {
+    let mut used = vec![false; answers.len()];
+    let mut name = qname.clone();
+    loop {
+        let hits: Vec<&GRec> = answers
+            .iter()
+            .enumerate()
+            .filter(|(i, r)| !used[*i] && eq_ci(&r.owner, &name) && r.rtype == want && r.rclass == qclass)
+            .map(|(_, r)| r)
+            .collect();
+        if !hits.is_empty() {
+            let ttl = hits.iter().map(|r| r.ttl).min().unwrap();
+            let data: Vec<String> = hits.iter().map(|r| gdata_show(want, &r.data).unwrap_or_else(|| "?".into())).collect();
+            return format!("ok:{}:{}:{}:{}", gname_hex(&name), qclass, ttl, data.join(","));
+        }
+        let next = answers
+            .iter()
+            .enumerate()
+            .find(|(i, r)| !used[*i] && eq_ci(&r.owner, &name) && r.rtype == T_CNAME && r.rclass == qclass);
+        match next {
+            Some((i, r)) => {
+                used[i] = true;
+                match &r.data {
+                    GData::Dn(t) => name = t.clone(),
+                    _ => return "err:NoAnswer".into(),
+                }
+            }
+            None => return "err:NoAnswer".into(),
+        }
+    }
+}
+
 /// stream `rrset`: responses with CNAME graphs (chains, forks, loops, dangling), decoys in other
 /// sections / classes / types, case variants, all gate combinations and OPT placements.
 pub fn gen_rrset(r: &mut Rng, _i: u64) -> String {
@@ -1399,7 +1461,11 @@ pub fn gen_rrset(r: &mut Rng, _i: u64) -> String {
     }
     // fix data for records whose type is not `want`
     for a in answers.iter_mut() {
-        if a.rtype != T_CNAME && a.rtype != want {
+        let well_typed = match (&a.data, a.rtype) {
+            (GData::Dn(_), t) => DN_TYPES.contains(&t),
+            (_, t) => t == want && !DN_TYPES.contains(&t),
+        };
+        if !well_typed {
             a.data = gen_data(r, a.rtype, true);
         }
     }
@@ -1466,10 +1532,28 @@ pub fn gen_rrset(r: &mut Rng, _i: u64) -> String {
     };
     let mode = pick_mode(r);
     let (mut buf, _) = encode(&m, mode, r);
-    if r.chance(1, 12) {
+    let mutated = r.chance(1, 12);
+    if mutated {
         mutate(&mut buf, r);
     }
-    format!("rrset {} {}", type_name(want), to_hex(&buf))
+    // ground truth, when the message is a well-formed NOERROR response the property speaks about
+    let first_opt_ext = m.sections[1]
+        .iter()
+        .chain(m.sections[2].iter())
+        .find(|x| x.rtype == T_OPT)
+        .map(|x| (x.ttl >> 24) as u8);
+    let clean = !mutated
+        && m.flags == 0x8180
+        && m.questions.len() == 1
+        && first_opt_ext.unwrap_or(0) == 0
+        && m.sections[0].iter().all(|x| x.rtype != T_OPT)
+        && ALL_TYPES.contains(&want);
+    if clean {
+        let exp = reference_rrset(&m.sections[0], &m.questions[0].0, m.questions[0].2, want);
+        format!("rrset {} {} exp={}", type_name(want), to_hex(&buf), exp)
+    } else {
+        format!("rrset {} {}", type_name(want), to_hex(&buf))
+    }
 }
 
 /// stream `nameeq`: all pairs of names inside compressed messages
